@@ -246,7 +246,9 @@ func NewLocksets(all map[*ssa.Function]bool, cfg LockConfig) *Locksets {
 	l := &Locksets{cfg: cfg, Entry: map[*ssa.Function]LockSet{}, Before: map[ssa.Instruction]LockSet{}, Exit: map[*ssa.Function]LockSet{},
 		invoke: map[*ssa.Function]map[int]LockSet{}, Spawned: map[*ssa.Function]bool{}}
 	for fn := range all {
-		if fn.Blocks != nil && cfg.InModule(fn) {
+		if fn.Blocks != nil && cfg.InModule(fn) && Unbound(fn) == fn {
+			// (the wrapper of a method value is not a function of its own: the method runs in the context in which
+			// the value is invoked, like a closure)
 			l.Fns = append(l.Fns, fn)
 		}
 	}
@@ -288,6 +290,7 @@ func NewLocksets(all map[*ssa.Function]bool, cfg LockConfig) *Locksets {
 				return
 			}
 			f, _ := mc.Fn.(*ssa.Function)
+			f = Unbound(f)
 			if f == nil {
 				return
 			}
@@ -367,15 +370,33 @@ func (l *Locksets) lower(fn *ssa.Function, s LockSet) bool {
 	return true
 }
 
+// Unbound maps the synthetic wrapper of a method value (c.method used as a func) to the method it calls: a method
+// value behaves like a closure whose body is the method.
+func Unbound(f *ssa.Function) *ssa.Function {
+	if f == nil || f.Synthetic == "" || !strings.Contains(f.Synthetic, "bound method wrapper") {
+		return f
+	}
+	for _, b := range f.Blocks {
+		for _, ins := range b.Instrs {
+			if c, ok := ins.(ssa.CallInstruction); ok {
+				if callee := c.Common().StaticCallee(); callee != nil {
+					return callee
+				}
+			}
+		}
+	}
+	return f
+}
+
 // closureArgTargets returns the functions a value denotes when it is a closure or function literal.
 func funcOfValue(v ssa.Value) *ssa.Function {
 	switch x := v.(type) {
 	case *ssa.MakeClosure:
 		if f, ok := x.Fn.(*ssa.Function); ok {
-			return f
+			return Unbound(f)
 		}
 	case *ssa.Function:
-		return x
+		return Unbound(x)
 	case *ssa.ChangeType:
 		return funcOfValue(x.X)
 	}
